@@ -2,6 +2,7 @@
   Helper lemmas for C01: `eval` preserves the 64-bit range invariant (mutual structural induction).
 -/
 import CedarGoProofs.Lemmas.C01Range
+import CedarGoProofs.Lemmas.RecordLit
 namespace CedarGo
 open Scalars
 namespace C01L
@@ -95,6 +96,17 @@ theorem entity_attrs_wf {env : Env} (hwf : env.WF) {u : UID} {d : EntityData} (h
     Value.WFKV d.attrs := (hwf.entities u d h).1
 theorem entity_tags_wf {env : Env} (hwf : env.WF) {u : UID} {d : EntityData} (h : env.entities.get u = some d) :
     Value.WFKV d.tags := (hwf.entities u d h).2
+
+/-- entries evaluated in a given order: in-range values if every entry yields one -/
+theorem evalKVs_wf_of (env : Env) : ∀ (l : List (String × Expr)) (kvs : List (String × Value)),
+    (∀ ke ∈ l, ∀ v, eval ke.2 env = .ok v → v.WF) → evalKVs l env = .ok kvs → Value.WFKV kvs
+  | [], kvs, _, h => by simp only [evalKVs] at h; cases h; simp [Value.WFKV]
+  | (k, e) :: l, kvs, hl, h => by
+    simp only [evalKVs] at h
+    obtain ⟨v, hv, h⟩ := bind_ok h
+    obtain ⟨vs', hvs', h⟩ := bind_ok h
+    cases h
+    exact ⟨hl (k, e) (by simp) v hv, evalKVs_wf_of env l vs' (fun ke hke => hl ke (by simp [hke])) hvs'⟩
 
 mutual
 /-- **Range invariant**: in-range literals and environment ⇒ in-range result. -/
@@ -288,10 +300,11 @@ theorem eval_wf : ∀ (e : Expr) (env : Env) (v : Value), env.WF → e.All litOK
     exact mkSet_wf (evalList_wf es env vs hwf hl.2 hvs)
   | .record kes, env, v, hwf, hl, h => by
     simp only [Expr.All] at hl
-    simp only [eval] at h
-    obtain ⟨kvs, hkvs, h⟩ := bind_ok h
+    rw [eval_recordLit] at h
+    obtain ⟨kvs, hkvs, h⟩ := ebind_ok h
     cases h
-    exact mkRecord_wf (evalKVs_wf kes env kvs hwf hl.2 hkvs)
+    have ih := evalKVs_wf kes env hwf hl.2
+    exact mkRecord_wf (evalKVs_wf_of env _ kvs (fun ke hke => ih ke (canonKVs_subset kes ke hke)) hkvs)
   | .call fn args, env, v, hwf, hl, h => by
     simp only [Expr.All] at hl
     simp only [eval] at h
@@ -314,16 +327,15 @@ theorem evalList_wf : ∀ (es : List Expr) (env : Env) (vs : List Value), env.WF
     obtain ⟨vs', hvs', h⟩ := bind_ok h
     cases h
     exact ⟨eval_wf e env v hwf hl.1 hv, evalList_wf es env vs' hwf hl.2 hvs'⟩
-theorem evalKVs_wf : ∀ (kes : List (String × Expr)) (env : Env) (kvs : List (String × Value)), env.WF →
-    Expr.AllKV litOK kes → evalKVs kes env = .ok kvs → Value.WFKV kvs
-  | [], _, kvs, _, _, h => by simp only [evalKVs] at h; cases h; simp [Value.WFKV]
-  | (k, e) :: kes, env, kvs, hwf, hl, h => by
+theorem evalKVs_wf : ∀ (kes : List (String × Expr)) (env : Env), env.WF →
+    Expr.AllKV litOK kes → ∀ ke ∈ kes, ∀ v, eval ke.2 env = .ok v → v.WF
+  | [], _, _, _ => by intro ke h; cases h
+  | (k, e) :: kes, env, hwf, hl => by
     simp only [Expr.AllKV] at hl
-    simp only [evalKVs] at h
-    obtain ⟨v, hv, h⟩ := bind_ok h
-    obtain ⟨vs', hvs', h⟩ := bind_ok h
-    cases h
-    exact ⟨eval_wf e env v hwf hl.1 hv, evalKVs_wf kes env vs' hwf hl.2 hvs'⟩
+    intro ke h v hv
+    rcases List.mem_cons.mp h with h | h
+    · rw [h] at hv; exact eval_wf e env v hwf hl.1 hv
+    · exact evalKVs_wf kes env hwf hl.2 ke h v hv
 theorem evalTyped_wf : ∀ (es : List Expr) (ks : List Kind) (env : Env) (vs : List Value), env.WF →
     Expr.AllL litOK es → evalTyped es ks env = .ok vs → Value.WFL vs
   | [], _, _, vs, _, _, h => by simp only [evalTyped] at h; cases h; simp [Value.WFL]
